@@ -116,6 +116,14 @@ pub fn writer_op<W: embedded_io::Write<Error = E>, E: embedded_io::Error>(
             // core::fmt::Write loses the error value; the application reports it as a sink error
             core::fmt::Write::write_fmt(w, format_args!("{}", as_str(&t))).map_err(|_| mkerr())
         }
+        "c" => {
+            // every character formatted on its own with `{}`: core::fmt goes through Write::write_char
+            let t = unhex(arg);
+            for ch in as_str(&t).chars() {
+                core::fmt::Write::write_fmt(w, format_args!("{}", ch)).map_err(|_| mkerr())?;
+            }
+            Ok(())
+        }
         "t" => w.write_title(as_str(&unhex(arg))),
         "e" => {
             let p: Vec<&str> = arg.split('.').collect();
